@@ -40,6 +40,9 @@ CHECKS = {
  "C10": ("exploration", "§9 C10",
    "Simulated parent life cycles for composite (incl. several live revisions) and decorator controllers with a finalize hook: match / unmatch the controller's selector, delete with foreground / orphan / background propagation, delete while unmatched, finalize hook removed from / added to the controller object later (a real Stop/Start), teardown programs (all at once, step by step, finalized answers that depend on a revisioned field), 409/500/connection-error/response-lost faults on the finalizer add and remove requests, lagging caches. Temporal oracle over the whole history: the finalizer is on the parent (in the store) when a child is created for it; it is never added to a parent that was being deleted in every view of the sync; deleting or unmatched parents go to the finalize hook with finalizing:true (else sync hook, false); the finalizer is removed only after finalized:true from every live revision; an unfinalizable deleting parent (no hook, finalizer gone, GC finalizer) has no child written; a failed add stops the sync; at quiescence no leftover finalizer without a finalize hook and no selected live parent without it when one is configured.",
    "deterministic simulation with fault injection on finalizer requests, temporal history oracle"),
+ "C12": ("fault_enumeration", "§9 C12",
+   "For each generated composite / decorator scenario (initial cluster with orphans, stale and drifted children, then a parent edit, then a parent deletion) a fault-free reference run records every in-sync interaction; one run per (position, kind) injects exactly one failure there: API 404, 409 conflict, 409 already-exists, 410, 422, 500, connection error, applied-response-lost; hook 500, 429 with Retry-After, connection refused, stall past the timeout, truncated body. Oracle per single fault, classified from the request and its pre-state: non-benign failures of child writes, ControllerRevision writes, parent writes and hook calls are reported as a sync error and the item is re-queued; the documented benign races (404 on delete/update, already-exists on create, conflict on update) are not reported; a composite hook 429 is not an error and the parent is synced again; after a failed child write the sync still creates the other missing children and goes on to the parent status; in every run the worker finishes the sync, nothing panics, and after one further trigger the cluster equals the hook's desired state and stays quiet. On top: random multi-fault runs with watch breaks, 410-relists (tombstones), crashes and deletions during the gap.",
+   "deterministic simulation, exhaustive single-fault enumeration per scenario + seeded multi-fault search"),
 }
 
 NA = {
